@@ -600,7 +600,7 @@ func isCursorSlice(t types.Type, r *Roles) bool {
 func lenAtLeast(b *ssa.BasicBlock, base ssa.Value, n int64) bool {
 	min, ok := minFeasible(guardAtoms(b), func(v ssa.Value) bool {
 		c, ok := stripConv(v).(*ssa.Call)
-		return ok && isLenOf(c, nil) && stripConv(c.Call.Args[0]) == stripConv(base)
+		return ok && isLenOf(c, nil) && (stripConv(c.Call.Args[0]) == stripConv(base) || sameObj(c.Call.Args[0], base))
 	})
 	return ok && min >= n
 }
